@@ -4,7 +4,11 @@
    gen_undo_before_change      tx_update / tx_delete record the undo entry before touching index / slab
    gen_rollback_reverse        rollback applies the undo log in reverse and always releases + removes
    gen_phase_checked           every tx_* / commit / rollback starts with the is_active check
-   gen_undo_btree_guarded      apply_undo_entry adds B-tree entries only for columns that have a B-tree index"""
+   gen_undo_btree_guarded      apply_undo_entry adds B-tree entries only for columns that have a B-tree index
+   gen_undo_captures_id        tx_insert / tx_delete capture the undo's index entries for the system column `_id` too
+                               (tx_delete reads the row through get_with_id, tx_insert pushes Value::Int(row_id) for "_id")
+   gen_sweep_keeps_other_locks RowLockManager::cleanup_expired prunes only the swept key from the owner's key list
+                               (tx_keys.retain), it never drops the owner's whole tx_locks entry"""
 import os
 import re
 import sys
@@ -16,7 +20,8 @@ from rs2v import HEADER, find_fn, read, strip_comments  # noqa: E402
 def generate(repo):
     items = {}
     vals = {"gen_insert_locks_row": False, "gen_locks_before_changes": True, "gen_undo_before_change": True,
-            "gen_rollback_reverse": True, "gen_phase_checked": True, "gen_undo_btree_guarded": True}
+            "gen_rollback_reverse": True, "gen_phase_checked": True, "gen_undo_btree_guarded": True,
+            "gen_undo_captures_id": False, "gen_sweep_keeps_other_locks": False}
     try:
         src = strip_comments(read(repo, "relational_engine/src/lib.rs"))
     except Exception as ex:  # noqa: BLE001
@@ -86,6 +91,28 @@ def generate(repo):
                 ok = ok and bool(re.search(r"if\s*!\s*self\s*\.\s*has_btree_index\s*\([^)]*\)\s*\{\s*continue\s*;\s*\}", head))
             return ok
 
+        def undo_captures_id():
+            d = find_fn(src, "tx_delete")[1]
+            m = re.search(r"let\s+mut\s+index_entries\b(.*?)record_undo", d, re.S)
+            if not m:
+                raise KeyError("tx_delete: index_entries capture not found")
+            cap = m.group(1)
+            ok = bool(re.search(r"row\s*\.\s*get_with_id\s*\(\s*col\s*\)", cap)) and not re.search(r"row\s*\.\s*get\s*\(", cap)
+            i = find_fn(src, "tx_insert")[1]
+            m = re.search(r"let\s+mut\s+index_entries\b(.*?)record_undo", i, re.S)
+            if not m:
+                raise KeyError("tx_insert: index_entries capture not found")
+            cap = m.group(1)
+            ok = ok and bool(re.search(r'col\s*==\s*"_id"', cap)) and bool(re.search(r"Value::Int\s*\(\s*row_id\b", cap))
+            return ok
+
+        def sweep_keeps():
+            tsrc = strip_comments(read(repo, "relational_engine/src/transaction.rs"))
+            b = find_fn(tsrc, "cleanup_expired", after=r"impl\s+RowLockManager")[1]
+            return bool(re.search(r"tx_keys\s*\.\s*retain\s*\(\s*\|\s*k\s*\|\s*k\s*!=\s*key\s*\)", b)) and not re.search(r"tx_locks\s*\.\s*(remove|clear)\s*\(", b)
+
+        item("gen_undo_captures_id", undo_captures_id)
+        item("gen_sweep_keeps_other_locks", sweep_keeps)
         item("gen_undo_btree_guarded", undo_guarded)
         item("gen_insert_locks_row", insert_locks)
         item("gen_locks_before_changes", locks_first)
